@@ -4,21 +4,24 @@
 // per-(key, attempt) fault oracle, virtual sleeps and WaitUntilReconciled probes.
 //
 // Ops (one output line each):
-//   cfg <s|b> <roundsize> <minb> <maxb> <prunei> <init 0|1> [<sset 0|1>]   start hive+reconciler (ms);
-//                                sset=1: objects carry a reconciler.StatusSet (entry "r") instead of a Status
-//   fail <k> <n>                 attempt n (0-based, per key) of an Update/Delete on key k fails
-//   hook <k> <n> <wkind> <k2>    during attempt n on key k perform user write <wkind> on k2
-//   hookf <k> <n> <wkind> <k2>   same, n counts only fresh attempts (from the change stream, not retries)
-//   w <wkind> <k>                user write from the driver, then quiesce
-//   sleep <d>                    advance virtual time by d ms, then quiesce
-//   wur <N|cur|cur+N|cur-N>      WaitUntilReconciled(rev) (cancelled if it would block)
-//   dump                         table contents
-//   prune | initdone             external prune trigger | mark table initializer done
-//   final                        faults off, sleep 3*maxb, report convergence
+//
+//	cfg <s|b> <roundsize> <minb> <maxb> <prunei> <init 0|1> [<sset 0|1>]   start hive+reconciler (ms);
+//	                             sset=1: objects carry a reconciler.StatusSet (entry "r") instead of a Status
+//	fail <k> <n>                 attempt n (0-based, per key) of an Update/Delete on key k fails
+//	hook <k> <n> <wkind> <k2>    during attempt n on key k perform user write <wkind> on k2
+//	hookf <k> <n> <wkind> <k2>   same, n counts only fresh attempts (from the change stream, not retries)
+//	w <wkind> <k>                user write from the driver, then quiesce
+//	sleep <d>                    advance virtual time by d ms, then quiesce
+//	wur <N|cur|cur+N|cur-N>      WaitUntilReconciled(rev) (cancelled if it would block)
+//	dump                         table contents
+//	prune | initdone             external prune trigger | mark table initializer done
+//	final                        faults off, sleep 3*maxb, report convergence
+//
 // wkind: put (insert/update, new payload version, StatusPending) | del | reins (delete+insert in
-//   one txn) | stat (status-only change as a second reconciler would do; skipped while our status
-//   is Error) | statx (same, unguarded: exercises the Error-status fallback of fix 8844901) |
-//   ref (Done -> StatusRefreshing) | pend (re-mark pending, same payload: StatusPending()/Statuses.Pending()).
+//
+//	one txn) | stat (status-only change as a second reconciler would do; skipped while our status
+//	is Error) | statx (same, unguarded: exercises the Error-status fallback of fix 8844901) |
+//	ref (Done -> StatusRefreshing) | pend (re-mark pending, same payload: StatusPending()/Statuses.Pending()).
 package main
 
 import (
@@ -49,9 +52,9 @@ const tags = "C14,C15,C16"
 
 type obj struct {
 	K      uint64
-	Ver    int // payload version (the "contents")
-	Gen    int // harness-only: generation of the user write that made it pending (not payload)
-	Other  int // status of a second (imaginary) reconciler
+	Ver    int                  // payload version (the "contents")
+	Gen    int                  // harness-only: generation of the user write that made it pending (not payload)
+	Other  int                  // status of a second (imaginary) reconciler
 	Status reconciler.Status    // plain single-reconciler status (cfg sset=0)
 	Set    reconciler.StatusSet // multi-reconciler status set, our entry is "r" (cfg sset=1)
 	UseSet bool
@@ -61,7 +64,7 @@ func (o *obj) TableHeader() []string { return []string{"K", "Ver", "Status"} }
 func (o *obj) TableRow() []string {
 	return []string{fmt.Sprint(o.K), fmt.Sprint(o.Ver), o.GetStatus().String()}
 }
-func (o *obj) Clone() *obj                          { o2 := *o; return &o2 }
+func (o *obj) Clone() *obj { o2 := *o; return &o2 }
 func (o *obj) GetStatus() reconciler.Status {
 	if o.UseSet {
 		return o.Set.Get(rname)
@@ -87,12 +90,12 @@ var keyIndex = statedb.Index[*obj, uint64]{
 }
 
 type config struct {
-	batch            bool
-	rs               int
-	minb, maxb       int
-	prunei           int
-	init             bool
-	sset             bool // objects carry a reconciler.StatusSet instead of a single Status
+	batch      bool
+	rs         int
+	minb, maxb int
+	prunei     int
+	init       bool
+	sset       bool // objects carry a reconciler.StatusSet instead of a single Status
 }
 
 type wr struct {
@@ -101,17 +104,17 @@ type wr struct {
 }
 
 type call struct {
-	t      int64
-	op     string // U D UB DB P
-	k      uint64
-	ver    int
-	gen    int
-	rev    uint64
-	revs   string
-	ok     bool
-	prune  string
-	fresh  bool
-	wait   int64
+	t     int64
+	op    string // U D UB DB P
+	k     uint64
+	ver   int
+	gen   int
+	rev   uint64
+	revs  string
+	ok    bool
+	prune string
+	fresh bool
+	wait  int64
 }
 
 type change struct {
@@ -144,17 +147,17 @@ type eng struct {
 	runaway   bool
 	block     chan struct{}
 
-	calls    []call            // since last print
-	hist     []call            // all op calls
-	target   map[uint64]int    // simulated target: k -> ver
-	want     map[uint64]int    // mirror of user-intended table contents: k -> ver
-	wantGen  map[uint64]int    // k -> gen of latest user write (live objects)
-	history  []map[uint64]int  // table contents (k->ver) after each user write since last quiescence
-	userRevs map[uint64]bool
-	changes  []change
-	ver, gen int
+	calls     []call           // since last print
+	hist      []call           // all op calls
+	target    map[uint64]int   // simulated target: k -> ver
+	want      map[uint64]int   // mirror of user-intended table contents: k -> ver
+	wantGen   map[uint64]int   // k -> gen of latest user write (live objects)
+	history   []map[uint64]int // table contents (k->ver) after each user write since last quiescence
+	userRevs  map[uint64]bool
+	changes   []change
+	ver, gen  int
 	firstWait int64
-	bad      []string
+	bad       []string
 }
 
 func (e *eng) flag(prop, clause string) {
@@ -173,7 +176,9 @@ func (e *eng) takeBad() string {
 	return s
 }
 
-func (e *eng) Gen(r *hx.Rand, n int, tier string, prop string, out *hx.Out) { gen(r, n, tier, prop, out) }
+func (e *eng) Gen(r *hx.Rand, n int, tier string, prop string, out *hx.Out) {
+	gen(r, n, tier, prop, out)
+}
 
 func (e *eng) Case(id string) {
 	*e = eng{
